@@ -137,6 +137,7 @@ def register(R):
         s.ensures(f"enter_{g}", (lambda g: lambda a, r: Implies(ok(r), st_parts(a, r)[g]))(g), props)
     s.ensures("wf_kept", WF_KEPT, ("C08",))
     s.ensures("shape", SHAPE, ("C09",))
+    s.ensures("instance", E_INST, ("C09",))
     s.no_raise(("C02",))
 
     # ------------------------------------------------------------ pooling states: assumed contracts
@@ -166,6 +167,7 @@ def register(R):
                 same_except(s2, a.sim, ["vehicles", "requests", "r_locations", "r_search"]), wf(s2)))
         s.ensures("frame", pool_enter)
         s.ensures("shape", SHAPE)
+        s.ensures("instance", E_INST)
 
     R.virtual("VehicleState", "exit")
     R.virtual("VehicleState", "enter")
@@ -202,4 +204,7 @@ def register(R):
             s2.applied_instructions == a.sim.applied_instructions,
             wf(s2)))
     s.ensures("only_this_vehicle", tr_frame, ("C09", "C02", "C15", "C08"))
+    s.ensures("committed_transition_is_visible", lambda a, r: Implies(
+        And(ok(r), a.next_state.instance_id != a.prev_state.instance_id),
+        r[1].val().vehicles.get(a.prev_state.vehicle_id).val().vehicle_state.instance_id != a.prev_state.instance_id), ("C09",))
     s.no_raise(("C09",))
